@@ -319,9 +319,16 @@ def _mutseq_check(prop, tier, judge_name):
                        'spec_viol': rec['viol'],
                        'real': {k: obs.get(k) for k in ('ref', 'bat', 'evo',
                                                         'rebuilds_ref', 'rebuilds_bat')}})
+    nspread = 0
+    if judge_name == 'c18':
+        nspread = _c18_spread_over_apps(report, tier, nontrivial)
     report.coverage['distinct_nontrivial'] = len(nontrivial)
     report.coverage['exhaustive'] = len(chosen) == len(recs) and harness_errors == 0
     report.coverage['rule'] = (
+        ('Part 2: %d projects of the EvoGraph family (several apps, dependencies, new models; every evolution '
+         'adds one column, so all of an app\'s pending evolutions are mergeable): the app\'s table is rebuilt once '
+         'unless another app\'s evolution has to run in-between, never more often than it has evolutions; '
+         'EvoGraph.tla predicts the number of batches.  Part 1: ' % nspread if nspread else '') +
         'TLC enumerates every simulation-valid mutation sequence up to the length bound over '
         'the alphabets of Optimizer.tla (Extend enabled iff Sig!Sim accepts) and evaluates the '
         'transcribed optimiser on each; %d of %d sequences were replayed into the real code '
@@ -357,6 +364,100 @@ def c03(tier, replay=None):
 
 def c18(tier, replay=None):
     return _mutseq_check('C18', tier, 'c18')
+
+
+def _c18_spread_over_apps(report, tier, nontrivial):
+    """C18, "however many evolutions they are spread over": projects of the EvoGraph family (every
+    evolution adds one nullable column to its app's table, so all of an app's pending evolutions are
+    mergeable) with dependencies between apps and new models; EvoGraph.tla says in how many batches -
+    AppMutator runs, hence rebuilds - each app's evolutions end up (InvOneBatchUnlessInterleaved)."""
+    import json as _json
+    import os
+    import random
+    from concurrent.futures import ThreadPoolExecutor
+    from .common import scratch_dir, seed
+    from .engines import evograph as G
+    from .tlc import run_tlc, require_ok, write_cfg
+    rng = random.Random(seed() * 9973 + 18)
+    count = 30 if tier == 'quick' else 300
+    cfgs = G.interleave_configs() + [
+        # app1: e1, e2 (after the brand-new app2): the order is e1, create app2's model, e2
+        {'napps': 2, 'applied': [0, 0], 'pending': [2, 0], 'newm': [False, True],
+         'after': [], 'before': [], 'eafter': [[1, [2, 0], 2]]},
+        {'napps': 3, 'applied': [1, 0, 0], 'pending': [3, 0, 1], 'newm': [False, True, False],
+         'after': [], 'before': [], 'eafter': [[1, [2, 0], 2]]},
+        {'napps': 3, 'applied': [0, 1, 0], 'pending': [2, 2, 0], 'newm': [True, False, True],
+         'after': [], 'before': [], 'eafter': [[2, [3, 0], 2]]},
+    ]
+    for c in G.sample_configs(rng, 3, count * 3):
+        # keep the ones where some app has two or more pending evolutions
+        if max(c['pending']) >= 2 and len(cfgs) < count:
+            cfgs.append(c)
+    by_napps = {}
+    for c in cfgs:
+        by_napps.setdefault(c['napps'], []).append(c)
+    records = []
+    for napps, cs in sorted(by_napps.items()):
+        path = os.path.join(scratch_dir(), 'evograph-c18-%d.json' % napps)
+        with open(path, 'w') as fp:
+            _json.dump(cs, fp)
+        cfg = write_cfg('MC_EvoGraph_c18_%d.cfg' % napps, '''
+SPECIFICATION Spec
+CONSTANTS
+  NApps = %d
+  MaxPending = 3
+  FromFile = TRUE
+  EmitRecords = TRUE
+CONSTRAINT Constraint
+INVARIANT InvOneBatchUnlessInterleaved
+''' % napps)
+        res = require_ok(run_tlc('EvoGraph', cfg, workers=8, timeout=3000, env={'CFG_FILE': path}),
+                         'EvoGraph.tla (C18 family) NApps=%d' % napps)
+        report.add_tlc('EvoGraph NApps=%d (%d projects, C18 family)' % (napps, len(cs)), res.stats())
+        seen = set()
+        for r in res.records:
+            key = _json.dumps({k: r[k] for k in ('applied', 'pending', 'newm', 'after', 'before', 'eafter')},
+                              sort_keys=True)
+            if key not in seen:
+                seen.add(key)
+                records.append(r)
+
+    def norm(r):
+        return {'napps': r['napps'], 'applied': list(r['applied']), 'pending': list(r['pending']),
+                'newm': list(r['newm']), 'after': [list(x) for x in r['after']],
+                'before': [list(x) for x in r['before']],
+                'eafter': [[x[0], list(x[1]), x[2] if len(x) > 2 else 1] for x in r['eafter']]}
+
+    def one(r):
+        try:
+            return G.run_config(norm(r))
+        except Exception:
+            import traceback
+            return {'harness_error': traceback.format_exc(limit=5)}
+    with ThreadPoolExecutor(12) as ex:
+        observations = list(ex.map(one, records))
+    for r, obs in zip(records, observations):
+        cfgd = norm(r)
+        report.coverage['evaluations'] += 1
+        if obs.get('harness_error') or obs.get('setup_error'):
+            report.notes.append('C18 family project problem: %s' % (obs.get('harness_error') or obs.get('setup_error')))
+            continue
+        report.coverage['traces_validated_against_impl'] += 1
+        if obs['outcome'] != 'ok':
+            continue
+        nontrivial.add('spread:' + _json.dumps(cfgd, sort_keys=True))
+        for cls, detail in G.spread_failures(cfgd, obs):
+            report.fail({'class': cls, 'part': 'spread-over-apps'},
+                        {'project': cfgd, 'real_order': obs['order'], 'rebuilds': obs['rebuilds'],
+                         'observed': detail})
+        if r['ok']:
+            want = {a: n for a, n in enumerate(r['nbatches'], 1) if n} if isinstance(r['nbatches'], list) \
+                else {int(a): n for a, n in r['nbatches'].items() if n}
+            have = {a: n for a, n in obs['rebuilds'].items() if n}
+            if want != have:
+                report.spec_drift('EvoGraph.tla puts the apps\' evolutions into %s batches, the tables were rebuilt %s times'
+                                  % (want, have), cfgd)
+    return len(records)
 
 
 REGISTRY.update({'C03': c03, 'C18': c18})
@@ -954,7 +1055,7 @@ def c17(tier, replay=None):
     apps = set(h.app for h in histories.values())
     nontrivial = set()
     clauses = ('EvolvingAtMostOnce', 'EvolvingBeforeAnyChange', 'ExactlyOneTerminalSignal',
-               'EvolvedIffSaved', 'PairedUnlessFailed', 'NoTerminalWithoutEvolving')
+               'EvolvedIffSaved', 'PairedUnlessFailed', 'EndSignalsTruthful', 'NoTerminalWithoutEvolving')
     for rec, runrecs in zip(chosen, results):
         label = _hist_label(rec['hist'])
         for ri, rr in enumerate(runrecs):
@@ -1025,6 +1126,10 @@ def c17(tier, replay=None):
                             report.fail({'class': 'payload-mismatch'}, dict(detail, at=e))
                         if ev == 'applied_evolution' and open_sig['stmts'] == 0:
                             report.fail({'class': 'applied-without-sql'}, dict(detail, at=e))
+                        if open_sig.get('failed'):
+                            # "applied" / "created" although a statement in-between failed
+                            report.fail({'class': 'end-signal-after-failed-statement', 'signal': ev},
+                                        dict(detail, at=e))
                         if ev == 'created_models':
                             open_sig['group'].pop(0)
                             if open_sig['group']:
@@ -1042,6 +1147,8 @@ def c17(tier, replay=None):
                                         dict(detail, sql=sql))
                     else:
                         open_sig['stmts'] += 1
+                        if ev == 'stmt_fail':
+                            open_sig['failed'] = True
                         if open_sig['ev'] == 'applying_evolution' and open_sig.get('app') in apps:
                             if '"%s_' % open_sig['app'] not in e.get('sql', '') and \
                                     'TEMP_TABLE' not in e.get('sql', ''):
@@ -1530,6 +1637,19 @@ def _signal_verdicts(report, res, detail, where):
     lock = res.get('lock')
     if lock and lock[0] != lock[1]:
         report.fail({'class': 'evolve-lock-not-restored', 'where': where}, dict(d, lock=lock))
+    # an end signal says the work announced by its opening signal was done: it must not follow a
+    # statement that failed in-between
+    opened, failed = 0, False
+    for n in names:
+        if n in ('applying_evolution', 'creating_models', 'applying_migration'):
+            opened += 1
+        elif n == 'stmt_fail' and opened:
+            failed = True
+        elif n in ('applied_evolution', 'created_models', 'applied_migration'):
+            if failed:
+                report.fail({'class': 'end-signal-after-failed-statement', 'signal': n, 'where': where}, d)
+                break
+            opened = max(0, opened - 1)
     if ok:
         for a, b in (('applying_evolution', 'applied_evolution'),
                      ('creating_models', 'created_models'),
